@@ -39,7 +39,14 @@ var edDeliberate = map[string]struct{ role, why string }{
 	"field:net/http.Request.GetBody":           {"probe", "the body cannot be rewound: the retry is abandoned and the original response/error is returned"},
 }
 
-var edConstructors = map[string]bool{"errors.New": true, "fmt.Errorf": true, "errors.Join": true}
+var edConstructors = map[string]bool{"errors.New": true, "fmt.Errorf": true, "errors.Join": true,
+	// state queries, not operations that fail
+	"(context.Context).Err": true, "context.Cause": true}
+
+// edInfallible: documented to always return a nil error.
+func edInfallible(n string) bool {
+	return strings.HasPrefix(n, "(*strings.Builder).") || strings.HasPrefix(n, "(*bytes.Buffer).Write") || strings.HasPrefix(n, "(hash.Hash).Write")
+}
 
 type edVerdict struct {
 	ok   bool
@@ -216,7 +223,7 @@ func runED(c *Ctx) {
 func edJudge(p *Prog, call ssa.CallInstruction) edVerdict {
 	n := CalleeName(call)
 	// (1) error constructors are not fallible calls
-	if edConstructors[n] {
+	if edConstructors[n] || edInfallible(n) {
 		return edVerdict{skip: true}
 	}
 	if g := StaticCallee(call); g != nil && inModule(g) && edIsConstructor(g, 0) {
@@ -290,6 +297,18 @@ func edJudge(p *Prog, call ssa.CallInstruction) edVerdict {
 		if cleanup {
 			return edVerdict{how: "deferred Close of a writer / written file discards its error (buffered data may be lost silently)"}
 		}
+		// `closeFile := sync.OnceValue(f.Close); defer closeFile(); ... err := closeFile()`:
+		// the deferred call is the panic-path duplicate of an explicit call that is handled
+		for _, o := range Calls(fn, func(string) bool { return true }) {
+			if _, d := o.(*ssa.Defer); d || o == call || o.Common().IsInvoke() != call.Common().IsInvoke() {
+				continue
+			}
+			if StaticCallee(o) == nil && SameValue(o.Common().Value, call.Common().Value) {
+				if v := edJudge(p, o); v.ok {
+					return edVerdict{ok: true, how: "deferred duplicate of an explicit call of the same function value, whose error is handled"}
+				}
+			}
+		}
 		return edVerdict{how: "deferred call: its error cannot surface"}
 	}
 	e := ErrOf(call)
@@ -314,14 +333,49 @@ func edJudge(p *Prog, call ssa.CallInstruction) edVerdict {
 	if how := edSink(p, fn, aliases); how != "" {
 		return edVerdict{ok: true, how: how}
 	}
-	// (3) classification before dropping
-	if ok, how := edClassified(fn, call, aliases); ok {
-		return edVerdict{ok: true, how: how}
-	}
+	// (3) on every feasible path from the failure to a success return the error
+	// is classified, or the same question is put to an alternative
 	_, _, ifs := NilTests(fn, aliases)
-	// same question put to an alternative (cache -> source)
-	if len(ifs) > 0 && edFallbackSameCallee(fn, call, aliases) {
-		return edVerdict{ok: true, how: "fallback: on failure the same operation is tried on an alternative receiver, whose error surfaces"}
+	cls, alt := edClassifiers(fn, aliases), edAlternatives(fn, call)
+	ct := map[ssa.Instruction]bool{}
+	for in := range cls {
+		ct[in] = true
+	}
+	for in := range alt {
+		ct[in] = true
+	}
+	bad, exceeded := edFailureReachesSuccess(fn, call, e, aliases, ct)
+	if exceeded {
+		// too many paths: the path-insensitive version of the same question
+		bad = true
+		if errIdx := ErrResultIndex(fn.Signature); errIdx >= 0 && len(ifs) > 0 {
+			sc := newCut().Instr(call.(ssa.Instruction))
+			for in := range ct {
+				sc.Instr(in)
+			}
+			bad = false
+			_, nonNilE, _ := NilTests(fn, aliases)
+			for _, ne := range nonNilE {
+				if findNilReturnFrom(fn, ne, errIdx, sc, aliases) != nil {
+					bad = true
+				}
+			}
+		}
+	}
+	if !bad {
+		switch {
+		case len(cls) == 0 && len(alt) == 0:
+			return edVerdict{ok: true, how: "surfaces on every feasible path (error variable shared with later steps / failure reported through the result)"}
+		case len(alt) > 0 && len(cls) == 0:
+			return edVerdict{ok: true, how: "fallback: on failure the same operation is tried on an alternative, whose error surfaces"}
+		default:
+			return edVerdict{ok: true, how: "dropped only after classification (errors.Is/As, sentinel comparison, predicate or type test of this error)"}
+		}
+	}
+	if g := StaticCallee(call); g != nil && inModule(g) && len(ifs) > 0 {
+		if sentinel := edSingleCause(g); sentinel != "" {
+			return edVerdict{ok: true, how: "the callee fails in exactly one way (" + sentinel + "): comparing its error with nil is the classification"}
+		}
 	}
 	if d, ok := edDeliberate[n]; ok {
 		if d.role == "discard" || len(ifs) > 0 {
@@ -521,13 +575,11 @@ func edSink(p *Prog, fn *ssa.Function, aliases map[ssa.Value]bool) string {
 	return how
 }
 
-// edClassified: on every path from the failure (the non-nil edge of a test of
-// the error; the call itself when it is never compared with nil) to a
-// nil-error return the error value is classified: errors.Is / errors.As on it,
-// == / != against a sentinel, a predicate receiving it, a type assertion.
-func edClassified(fn *ssa.Function, call ssa.CallInstruction, aliases map[ssa.Value]bool) (bool, string) {
-	ct := newCut()
-	n := 0
+// edClassifiers: the instructions that classify this error value: errors.Is /
+// errors.As on it, == / != against a sentinel, a predicate receiving it, a
+// type assertion on it.
+func edClassifiers(fn *ssa.Function, aliases map[ssa.Value]bool) map[ssa.Instruction]bool {
+	out := map[ssa.Instruction]bool{}
 	AllInstrs(fn, func(in ssa.Instruction) {
 		switch x := in.(type) {
 		case *ssa.Call:
@@ -537,12 +589,10 @@ func edClassified(fn *ssa.Function, call ssa.CallInstruction, aliases map[ssa.Va
 					continue
 				}
 				if (name == "errors.Is" || name == "errors.As") && i == 0 {
-					ct.Instr(x)
-					n++
+					out[x] = true
 				} else if sig := x.Call.Signature(); sig != nil && sig.Results().Len() == 1 {
 					if b, ok := sig.Results().At(0).Type().Underlying().(*types.Basic); ok && b.Kind() == types.Bool {
-						ct.Instr(x) // os.IsNotExist(err), isTemporary(err) ...
-						n++
+						out[x] = true // os.IsNotExist(err), isTemporary(err) ...
 					}
 				}
 			}
@@ -556,124 +606,216 @@ func edClassified(fn *ssa.Function, call ssa.CallInstruction, aliases map[ssa.Va
 			} else if aliases[x.Y] {
 				other = x.X
 			}
-			if other == nil || isNilConst(other) {
-				return
+			if other != nil && !isNilConst(other) {
+				out[x] = true // compared with a sentinel
 			}
-			ct.Instr(x) // compared with a sentinel
-			n++
 		case *ssa.TypeAssert:
 			if aliases[x.X] {
-				ct.Instr(x)
-				n++
+				out[x] = true
+			}
+		case *ssa.MakeClosure:
+			// a predicate closure that captured the error variable and classifies it
+			// (slices.ContainsFunc(ignored, func(t error) bool { return errors.Is(err, t) }))
+			g := x.Fn.(*ssa.Function)
+			for j, bnd := range x.Bindings {
+				a, isAlloc := bnd.(*ssa.Alloc)
+				if !isAlloc || !isErrorType(a.Type().(*types.Pointer).Elem()) {
+					continue
+				}
+				holds := false
+				for _, st := range storesTo(a) {
+					if aliases[st.Val] || aliases[strip(st.Val)] {
+						holds = true
+					}
+				}
+				if !holds {
+					continue
+				}
+				inner := map[ssa.Value]bool{}
+				for _, ref := range *g.FreeVars[j].Referrers() {
+					if ld, isLd := ref.(*ssa.UnOp); isLd && ld.Op == token.MUL {
+						for al := range Aliases(ld) {
+							inner[al] = true
+						}
+					}
+				}
+				if len(edClassifiers(g, inner)) > 0 {
+					out[x] = true
+				}
 			}
 		}
 	})
-	if n == 0 {
-		return false, ""
-	}
-	ct.Instr(call.(ssa.Instruction))
-	errIdx := ErrResultIndex(fn.Signature)
-	_, nonNilE, ifs := NilTests(fn, aliases)
-	how := "dropped only after classification (errors.Is/As, sentinel comparison, predicate or type test of this error)"
-	if len(ifs) == 0 {
-		// never compared with nil: classified on every path from the call to a return
-		if edNilReturnFromPoint(fn, call.Block(), instrIndex(call.(ssa.Instruction))+1, errIdx, ct, aliases) {
-			return false, ""
-		}
-		return true, how
-	}
-	for _, ne := range nonNilE {
-		if edNilReturnFromPoint(fn, ne.To, 0, errIdx, ct, aliases) {
-			return false, ""
-		}
-	}
-	return true, how
+	return out
 }
 
-// edNilReturnFromPoint: a Return whose error may be nil (any Return when the
-// function has no error result) is reachable without executing a cut instruction.
-func edNilReturnFromPoint(fn *ssa.Function, b *ssa.BasicBlock, i int, errIdx int, ct *cut, aliases map[ssa.Value]bool) bool {
-	visited := map[*ssa.BasicBlock]bool{}
-	found := false
-	var walk func(b *ssa.BasicBlock, i int)
-	walk = func(b *ssa.BasicBlock, i int) {
-		if found {
-			return
+// edSingleCause: every non-nil error g returns is one and the same
+// package-level sentinel (possibly wrapped by fmt.Errorf): returns its name.
+func edSingleCause(g *ssa.Function) string {
+	errIdx := ErrResultIndex(g.Signature)
+	if errIdx < 0 || len(g.Blocks) == 0 {
+		return ""
+	}
+	name := ""
+	for _, a := range RetAtoms(g, errIdx) {
+		if ErrNilStatus(a.Val, 0) == IsNil {
+			continue
 		}
-		if i == 0 {
-			if visited[b] {
-				return
+		var sn string
+		switch u := a.Val.(type) {
+		case *ssa.Call:
+			if CalleeName(u) != "fmt.Errorf" {
+				return ""
 			}
-			visited[b] = true
-		}
-		for ; i < len(b.Instrs); i++ {
-			in := b.Instrs[i]
-			if ct.instrs[in] {
-				return
-			}
-			if r, ok := in.(*ssa.Return); ok {
-				if errIdx < 0 || errIdx >= len(r.Results) {
-					found = true
-					return
-				}
-				if res := r.Results[errIdx]; aliases[res] || aliases[strip(res)] {
-					return // the error itself is returned
-				}
-				for _, v := range Roots(r.Results[errIdx]) {
-					if ErrNilStatus(v, 0) != NonNil && !aliases[v] && !derivesFromAny(v, aliases, 0) {
-						found = true
+			// the only error-typed operand is a sentinel
+			globals := map[ssa.Value]bool{}
+			AllInstrs(g, func(in ssa.Instruction) {
+				if ld, ok := in.(*ssa.UnOp); ok && ld.Op == token.MUL {
+					if gl, ok := ld.X.(*ssa.Global); ok && isErrorType(gl.Type().(*types.Pointer).Elem()) {
+						globals[ld] = true
 					}
 				}
-				return
+			})
+			for gl := range globals {
+				if derivesFromAny(u, map[ssa.Value]bool{gl: true}, 0) {
+					if s := sentinelName(gl); sn == "" {
+						sn = s
+					} else if s != sn {
+						return ""
+					}
+				}
+			}
+		default:
+			sn = sentinelName(a.Val)
+			if strings.HasPrefix(sn, "local:") {
+				sn = ""
 			}
 		}
-		for _, s := range b.Succs {
-			walk(s, 0)
+		if sn == "" || (name != "" && sn != name) {
+			return ""
 		}
+		name = sn
 	}
-	walk(b, i)
-	return found
+	return name
 }
 
-// edFallbackSameCallee: after the failure every path to a nil-error return
-// passes another call of the same callee (the question is put to an
-// alternative receiver: cache, then source).
-func edFallbackSameCallee(fn *ssa.Function, call ssa.CallInstruction, aliases map[ssa.Value]bool) bool {
+// edAlternatives: other calls of the same operation (same callee, or the
+// method of the same name on another receiver / interface, or an in-module
+// helper that performs it): cache first, then the source.
+func edAlternatives(fn *ssa.Function, call ssa.CallInstruction) map[ssa.Instruction]bool {
+	out := map[ssa.Instruction]bool{}
 	n := CalleeName(call)
-	ct := newCut()
-	k := 0
-	for _, o := range CallsTo(fn, n) {
-		if o != call {
-			ct.Instr(o.(ssa.Instruction))
-			k++
-		}
+	suffix := n
+	if dot := strings.LastIndex(n, ")."); dot >= 0 {
+		suffix = n[dot:]
+	} else if !call.Common().IsInvoke() {
+		return out
 	}
-	if k == 0 {
-		// a method of the same name on another interface (Cache.Fetch -> ReadOnlyStorage.Fetch)
-		dot := strings.LastIndex(n, ").")
-		if dot < 0 {
-			return false
+	same := func(m string) bool {
+		return m == n || (strings.HasPrefix(suffix, ").") && strings.HasSuffix(m, suffix))
+	}
+	for _, o := range Calls(fn, func(string) bool { return true }) {
+		if o == call {
+			continue
 		}
-		suffix := n[dot:]
-		for _, o := range Calls(fn, func(m string) bool { return strings.HasSuffix(m, suffix) }) {
-			if o != call {
-				ct.Instr(o.(ssa.Instruction))
-				k++
+		if _, isDefer := o.(*ssa.Defer); isDefer {
+			continue
+		}
+		if same(CalleeName(o)) {
+			out[o.(ssa.Instruction)] = true
+			continue
+		}
+		if g, _ := c02CalleeOf(o); g != nil && g != fn && hasErrResult(o) {
+			if c02ReachesStatic(g, 2, func(in ssa.Instruction) bool {
+				ic, ok := in.(ssa.CallInstruction)
+				return ok && same(CalleeName(ic))
+			}) {
+				out[o.(ssa.Instruction)] = true
 			}
 		}
-		if k == 0 {
-			return false
-		}
 	}
-	ct.Instr(call.(ssa.Instruction))
+	return out
+}
+
+// edFailureReachesSuccess explores the feasible paths of fn with the error of
+// `call` forced non-nil and reports whether a success return (nil-able error
+// result; for a function without error result: a return that does not report
+// the failure through a constant zero/false result) is reached without
+// executing one of the stop instructions.
+func edFailureReachesSuccess(fn *ssa.Function, call ssa.CallInstruction, e ssa.Value, aliases map[ssa.Value]bool, stop map[ssa.Instruction]bool) (bad, exceeded bool) {
+	ex := newC02Explorer(fn)
+	ex.budget = 15000
 	errIdx := ErrResultIndex(fn.Signature)
-	_, nonNilE, _ := NilTests(fn, aliases)
-	for _, ne := range nonNilE {
-		if edNilReturnFromPoint(fn, ne.To, 0, errIdx, ct, aliases) {
+	eInstr, _ := e.(ssa.Instruction)
+	dead := edDeadBlocks(fn)
+	ex.instr = func(in ssa.Instruction, env *c02Env) bool {
+		if bad || dead[in.Block()] {
 			return false
 		}
+		failed := env.user.touched
+		if failed && stop[in] {
+			return false
+		}
+		if failed && in == call.(ssa.Instruction) {
+			return false // a new error value
+		}
+		if in == eInstr {
+			env.nilOf[e] = 2
+			env.user.touched = true
+			env.user.last = nil
+			return true
+		}
+		if !failed {
+			return true
+		}
+		if st, ok := in.(*ssa.Store); ok {
+			if fa, isFA := st.Addr.(*ssa.FieldAddr); isFA && isErrorType(st.Val.Type()) {
+				if ex.nilness(st.Val, env) == 2 || aliases[st.Val] || derivesFromAny(st.Val, aliases, 0) {
+					env.user.last = st
+					_ = fa
+				}
+			}
+		}
+		r, ok := in.(*ssa.Return)
+		if !ok {
+			return true
+		}
+		if errIdx < 0 {
+			// the failure is reported through the non-error result: every result a constant zero value
+			allZero := len(r.Results) > 0
+			for _, v := range r.Results {
+				c, isC := v.(*ssa.Const)
+				if !isC || !(c.Value == nil || c.Value.String() == "false" || c.Value.String() == "0" || c.Value.String() == `""`) {
+					allZero = false
+				}
+			}
+			if !allZero {
+				bad = true
+			}
+			return false
+		}
+		res := r.Results[errIdx]
+		if ex.nilness(res, env) == 2 {
+			return false
+		}
+		rv := ex.res(res, env)
+		if aliases[res] || aliases[strip(res)] || (rv != nil && (aliases[rv] || derivesFromAny(rv, aliases, 0))) || derivesFromAny(res, aliases, 0) {
+			return false
+		}
+		// `x.err = Sentinel; return x.err`
+		if ld, isLd := res.(*ssa.UnOp); isLd && ld.Op == token.MUL {
+			if fa, isFA := ld.X.(*ssa.FieldAddr); isFA {
+				if st, isSt := env.user.last.(*ssa.Store); isSt {
+					if sfa := st.Addr.(*ssa.FieldAddr); sfa.Field == fa.Field && types.Identical(sfa.X.Type(), fa.X.Type()) {
+						return false
+					}
+				}
+			}
+		}
+		bad = true
+		return false
 	}
-	return true
+	ex.run(c02Permit{})
+	return bad, ex.exceeded
 }
 
 // edDeadBlocks: blocks reachable only through the infeasible edge of an If
@@ -791,6 +933,26 @@ func edCapturedIsReturned(fn *ssa.Function, fv *ssa.FreeVar) bool {
 					for _, e := range u.Edges {
 						visit(e, depth+1)
 					}
+				case *ssa.Call:
+					for _, a := range u.Call.Args {
+						visit(a, depth+1)
+					}
+				case *ssa.Slice:
+					visit(u.X, depth+1)
+				case *ssa.Alloc:
+					for _, ref := range *u.Referrers() {
+						if ia, ok := ref.(*ssa.IndexAddr); ok {
+							for _, r2 := range *ia.Referrers() {
+								if st, ok := r2.(*ssa.Store); ok {
+									visit(st.Val, depth+1)
+								}
+							}
+						}
+					}
+				case *ssa.MakeInterface:
+					visit(u.X, depth+1)
+				case *ssa.ChangeInterface:
+					visit(u.X, depth+1)
 				}
 			}
 			visit(r.Results[errIdx], 0)
